@@ -14,7 +14,10 @@
 EXTENDS Naturals, Sequences, FiniteSets, TLC
 
 Backends == {"atlas", "cms_aod", "cms_miniaod"}
-FilesCfg == {"one", "two_same_dir", "three_same_dir", "two_dirs", "one_missing", "none"}
+\* two_dirs: sibling directories; nested_dir: the second file lies in a sub-directory of the first
+\* file's directory; nested_rev: the other way round - none of these share one directory
+FilesCfg == {"one", "two_same_dir", "three_same_dir", "two_dirs", "nested_dir", "nested_rev", "one_missing", "none"}
+NotOneDir == {"two_dirs", "nested_dir", "nested_rev"}
 Containers == {"ok_result", "ok_noresult", "fail_at_0", "fail_at_2"}
 
 Scenario == [backend : Backends, files : FilesCfg, md : {"absent", "present"}, outdir : {"given", "default"},
@@ -26,14 +29,14 @@ MdImage == "vp/from-metadata:1"
 CacheMounts(b) == IF b = "atlas" THEN {"/xaod_calibration_cache"} ELSE {}
 
 NFiles(f) == CASE f = "one" -> 1 [] f = "two_same_dir" -> 2 [] f = "three_same_dir" -> 3
-               [] f = "two_dirs" -> 2 [] f = "one_missing" -> 2 [] f = "none" -> 0
+               [] f \in NotOneDir -> 2 [] f = "one_missing" -> 2 [] f = "none" -> 0
 FileNames == <<"f1.root", "f2.root", "f3.root">>
 
 \* where the scenario ends: which step raises (or "done")
 Ends(sc) ==
   IF sc.files \in {"none", "one_missing"} THEN "construct"
   ELSE IF sc.translation = "fails" THEN "generate"
-  ELSE IF sc.files = "two_dirs" THEN "filelist"
+  ELSE IF sc.files \in NotOneDir THEN "filelist"
   ELSE IF sc.container \in {"fail_at_0", "fail_at_2"} THEN "docker"
   ELSE IF sc.container = "ok_noresult" THEN "extract"
   ELSE "done"
